@@ -140,6 +140,26 @@ Proof.
 Qed.
 Print Assumptions C18_tet_split_measure.
 
+(* ... and the children fit together: every triangular face of a child is shared by exactly two children or lies in
+   a boundary plane of the reference cell and belongs to one child (finite certificate on the regenerated data;
+   together with equal volumes adding up to the parent's this excludes overlapping or missing children) *)
+Theorem C18_tet_split_conforming :
+  conforming_split gen_refhex_p cube_planes gen_hex_split = true /\
+  conforming_split gen_refwedge_p prism_planes gen_wedge_split = true.
+Proof. exact tet_splits_conforming. Qed.
+Print Assumptions C18_tet_split_conforming.
+
+(* extrude_spec (model of MeshTri1 * MeshLine1, corresponded with the real operator): prism k + l*nt consists of
+   triangle k in layer l (vertex v + l*nv) and the same triangle in layer l+1, for every number of layers *)
+Theorem C18_extrude_spec :
+  forall (nv nlayers nt : nat) (t : mat nat) (i l k : nat),
+    Forall (fun row => length row = nt) t -> i < 2 * length t -> l < nlayers - 1 -> k < nt ->
+    nth (k + l * nt) (nth i (extrude_t nv nlayers t) []) 0
+    = if i <? length t then nth k (nth i t []) 0 + l * nv
+      else nth k (nth (i - length t) t []) 0 + nv + l * nv.
+Proof. exact extrude_t_spec. Qed.
+Print Assumptions C18_extrude_spec.
+
 (* transform_spec: scaled multiplies every simplex determinant by the product of the factors, translated leaves it
    unchanged, mirrored (p - 2 (n.(p - p0)) n) multiplies it by 1 - 2 n.n, i.e. by -1 for the unit normal the code
    uses: measures scale by |prod factors| resp. are preserved.  All coordinates, all simplices. *)
